@@ -215,3 +215,7 @@ pub broadcast axiom fn ax_c11_typed_vector_x(s: Vector2) ensures #[trigger] s.x 
 pub broadcast axiom fn ax_c11_typed_vector_y(s: Vector2) ensures #[trigger] s.y == f64_typed(s, 1);
 pub broadcast axiom fn ax_c11_typed_ball(s: Ball) ensures #[trigger] s.radius == f64_typed(s, 0);
 pub broadcast group c11_typing { ax_c11_typed_point_x, ax_c11_typed_point_y, ax_c11_typed_vector_x, ax_c11_typed_vector_y, ax_c11_typed_ball }
+
+// parry Aabb (opaque here: bounding boxes are not under contract) and Ball::new
+#[verifier::external_body] #[derive(Clone, Copy)] pub struct Aabb2 { _a: [f64; 4] }
+impl Ball { pub fn new(radius: f64) -> (r: Ball) ensures r.radius == radius { Ball { radius } } }
